@@ -56,7 +56,7 @@ CHECKS = {
    note="Lateness is decided from measured delivery instants; exact ties with a deadline are skipped and counted."),
  "C12": dict(engine="sim", cat="exploration", design="3/C12",
    technique="runtime monitor in virtual time: completion instants checked against t_tx+T from the transport log; exhaustive outcome-sequence enumeration for the consecutive-timeout limit",
-   text="Per-request timeouts from 0 ns to 1 h, replies arriving never / whole / split around the deadline; a timeout must complete within [deadline, deadline+1ms], an earlier complete reply must succeed with its data, the next request must still work; stale and foreign-id frames arriving before the deadline must not move it. All outcome sequences over {timeout, success, exception, bad reply} up to length 4 (quick) / 6 (thorough) x limits {none,1,2,3,4}: the session must end exactly at the N-th consecutive timeout.",
+   text="Per-request timeouts from 0 ns to 1 h, plus 'no timeout' values up to Duration::MAX (the reply must still be accepted and the channel must keep working), replies arriving never / whole / split around the deadline; a timeout must complete within [deadline, deadline+1ms], an earlier complete reply must succeed with its data, the next request must still work; stale and foreign-id frames arriving before the deadline must not move it. All outcome sequences over {timeout, success, exception, bad reply} up to length 4 (quick) / 6 (thorough) x limits {none,1,2,3,4}: the session must end exactly at the N-th consecutive timeout.",
    note="1 ms timer granularity and exact ties are accepted either way (documented in DESIGN.md 2.5)."),
  "C20": dict(engine="sim", cat="exploration", design="3/C20",
    technique="differential runtime monitor: same script executed at decode level nothing, maximum, random and with a level change injected at every position; full observation records (bytes+virtual timestamps, results+instants, handler log, state, session end) must be equal",
@@ -70,15 +70,15 @@ CHECKS = {
  "C13": dict(engine="net", cat="exploration", design="3/C13",
    technique="online trace automaton on the connection-state listener stream with the listener callback used as a lock-step gate; accept counter, request-result and JoinHandle monitors",
    text="The real TCP client task runs against a harness-owned listener; at every state notification the task is parked while one user event (enable, disable, shutdown, drop handles, submit) and the environment for the next attempt (refused, accept+close, accept+garbage, accept+silent, served) are injected. Checked: legal transitions, expected successor when nothing is pending, Disabled after disable, no accept while Disabled, no-connection for requests submitted while down, a request handed over at a wait-state notification has completed when Connecting is announced (logical order, no clock), a shutdown queued right behind a disable still takes effect, Shutdown once and last, handles report shutdown, task terminates.",
-   note="Wall-clock only as watchdog. A request queued at the Connecting gate may legitimately be served when the connect completes in its first poll (measured and reported). Serial (pty) legs run the PortState automaton on the serial client task (port open failures, shutdown / handle drop) and a port behind a symlink that opens, is disabled (the port must really be released: observed at the pty master), re-enabled, disappears and comes back (requests during the wait fail with no-connection, re-open observed from outside)."),
+   note="Wall-clock only as watchdog. A request queued at the Connecting gate may legitimately be served when the connect completes in its first poll (measured and reported). A TLS client whose peer never completes the handshake is 'not connected': requests fail at once, disable is reported, shutdown / dropping the handles ends the task (defect D11 on the original tree, fixed). Serial (pty) legs run the PortState automaton on the serial client task (port open failures, shutdown / handle drop) and a port behind a symlink that opens, is disabled (the port must really be released: observed at the pty master), re-enabled, disappears and comes back (requests during the wait fail with no-connection, re-open observed from outside)."),
  "C14": dict(engine="net", cat="exploration", design="3/C14",
    technique="model comparison of the public strategy object over enumerated call sequences (panic = violation) + runtime monitor with a logging wrapper strategy on the real TCP client task (call-log grammar, announced delay == returned value, measured wait >= delay)",
-   text="Strategy object: all (min,max) pairs of a lattice up to Duration::MAX, all sequences over {fail, disconnect, reset} up to length 7 (quick) / 9 (thorough) plus runs of 70/130 failures. Task level: outcome sequences of 2-10 over {refused, accepted then closed, accepted then garbage} with min 20 ms / max 150 ms, with enable/disable/decode-level commands issued during the waits (a command must not shorten or restart the wait); a quarter of the scripts run the TLS client task against the same plain-TCP peer, where every accepted connection fails inside the handshake and must count as a failed connect (doubling continues, no reset, no after_disconnect); the same monitor on the serial client (open retry on a pty that disappears) and the RTU server task (port retry); and, measured from outside at the pty master, the instant at which a lost port (symlink re-pointed to a second pty) is opened again by the serial client and by the RTU server: never earlier than the delay.",
+   text="Strategy object: all (min,max) pairs of a lattice up to Duration::MAX, all sequences over {fail, disconnect, reset} up to length 7 (quick) / 9 (thorough) plus runs of 70/130 failures. Task level: a strategy saturated at Duration::MAX (delay announced, task responsive, shutdown honoured); outcome sequences of 2-10 over {refused, accepted then closed, accepted then garbage} with min 20 ms / max 150 ms, with enable/disable/decode-level commands issued during the waits (a command must not shorten or restart the wait); a quarter of the scripts run the TLS client task against the same plain-TCP peer, where every accepted connection fails inside the handshake and must count as a failed connect (doubling continues, no reset, no after_disconnect); the same monitor on the serial client (open retry on a pty that disappears) and the RTU server task (port retry); and, measured from outside at the pty master, the instant at which a lost port (symlink re-pointed to a second pty) is opened again by the serial client and by the RTU server: never earlier than the delay.",
    note="Pairs with min > max are excluded (statement is contradictory there). Only the lower bound of a wait is a verdict."),
  "C15": dict(engine="net", cat="exploration", design="3/C15",
    technique="black-box history checker: alive/closed vector of real sockets after every event compared with an ordered-list model of the session tracker",
    text="Histories of 5-30 events over {connect, client close, request, malformed header, set decode level, shutdown, drop handle} with max_sessions 0..4 against the real TCP server task; sentinel requests with unique transaction ids decide alive, EOF/reset decides closed. TLS leg: histories over {valid TLS client connects, connections that never become sessions (plaintext, garbage, connect-and-close, ClientHello fragment), connections that stay silent inside the handshake, client leaves, probe all} against the real TLS server task with limits 1-3; session-holding peers are rodbus TLS clients with a state listener.",
-   note="A discrepancy is reported only if it reproduces with a 10x longer grace for the server to notice closed peers. A connection that stays inside the TLS handshake holds a place like any accepted connection and must not disturb anybody else (new connections admitted, live sessions served, server task ends on shutdown); that its own socket is only dropped when the handshake ends - not at eviction or shutdown - is recorded as an observation, not judged. Whether a connection that arrives at the limit and then fails its handshake evicts the oldest session is accepted either way (the model follows what is observed)."),
+   note="A discrepancy is reported only if it reproduces with a 10x longer grace for the server to notice closed peers. A connection that stays inside the TLS handshake is a session like any other: it holds a place, must not disturb anybody else, and is closed when evicted and at shutdown (defect D12 on the original tree, fixed). Whether a connection that arrives at the limit and then fails its handshake evicts the oldest session is accepted either way (the model follows what is observed)."),
  "C16": dict(engine="net", cat="exploration", design="3/C16",
    technique="black-box monitor: connections from chosen loopback source addresses to real servers (TCP, TLS, TLS+authz; Rust API and C ABI) judged by an independent matcher; three-valued oracle over enumerated wildcard strings",
    text="Filters: any, exact v4/v6, sets of 1-5 mixed addresses, the unspecified / broadcast / IPv4-mapped addresses as ordinary filter values (fixed first cases of every campaign and constructor), wildcards with literal/'*' fields on a boundary lattice; sources 127.a.b.c and ::1. Served = sentinel reply / completed handshake and Modbus reply through an independent TLS peer; refused = EOF before any byte. Parser: every string over a 12-symbol alphabet up to length 5 (quick) / 7 (thorough) plus grammar-generated strings.",
@@ -86,7 +86,7 @@ CHECKS = {
 
  "C18": dict(engine="ffi", cat="exploration", design="3/C18",
    technique="differential runtime monitor: the same scenario through the extern C surface and through the Rust API, outcomes mapped through an independent name table; callback-lifecycle counters (completion exactly once, on_destroy exactly once); AddressSanitizer / Miri legs in the thorough tier",
-   text="All eight client operations x outcomes (genuine, 9 standard + all 256 raw exception codes, bad response, bad framing, close, silence, no listener, queue full, handle destroyed, runtime destroyed) against a scripted loopback peer; request bytes vs the reference encoder; measured timeouts; a C write handler answering success / each standard exception / raw codes for all four write functions observed by a raw client; 36 decode levels through both APIs with the C logger installed; client and port state listeners; calls the library must refuse (count 0, over-limit and overflowing ranges and lists, null channel: nothing transmitted, a failure reported, completion exactly once); the same list object used for several writes; five kinds of bad response; configuration pass-through (max_queued_requests; TLS client expected name / wildcard switch / minimum version / certificate mode against an independent TLS server and against the Rust constructor; TLS server minimum version and certificate mode; retry strategy delays measured; serial flow control / stop bits read back from the pty; max_sessions 2 / 256 / 258 through each of the three TCP/TLS server constructors); a C authorization handler with one callback per function and a per-function answer (four masks): which callback is consulted, its arguments and role, the client's result, the write-handler calls.",
+   text="All eight client operations x outcomes (genuine, 9 standard + all 256 raw exception codes, bad response, bad framing, close, silence, no listener, queue full, handle destroyed, runtime destroyed) against a scripted loopback peer; request bytes vs the reference encoder; measured timeouts; a C write handler answering success / each standard exception / raw codes for all four write functions observed by a raw client; 36 decode levels through both APIs with the C logger installed; client and port state listeners; calls the library must refuse (count 0, over-limit and overflowing ranges and lists, null channel: nothing transmitted, a failure reported, completion exactly once); the same list object used for several writes; five kinds of bad response; disabling and re-enabling a channel; decode levels set on a running channel and on a running server (36 levels each, compared with a channel / server created at that level); the RTU server constructor on a pty (database reads, write handler, CRC, silence for other units); the runtime's shutdown timeout - every function of the C ABI is called by the harness; configuration pass-through (max_queued_requests; TLS client expected name / wildcard switch / minimum version / certificate mode against an independent TLS server and against the Rust constructor; TLS server minimum version and certificate mode; retry strategy delays measured; serial flow control / stop bits read back from the pty; max_sessions 2 / 256 / 258 through each of the three TCP/TLS server constructors); a C authorization handler with one callback per function and a per-function answer (four masks): which callback is consulted, its arguments and role, the client's result, the write-handler calls.",
    note="The harness is Rust linking the rodbus-ffi rlib and calling only generated extern \"C\" functions with extern \"C\" callbacks (no C compiler involved). Every completion callback must fire exactly once, also for calls that are refused (this was don't-care until round 7; the unchanged tree violated it - defect D10, fixed). A pty forces 8 data bits / no parity and has no baud rate, so only flow control and stop bits of the serial settings are observable."),
  "C19": dict(engine="ffi", cat="exploration", design="3/C19",
    technique="model comparison (HashMap reference) of every rodbus_database_* return value and of raw-socket reads; torn-read detector under multi-thread stress with injected yields inside the transaction callback, overlap counter",
